@@ -127,11 +127,13 @@ func (S *Sorts) sortOf(t types.Type) string {
 }
 
 func (S *Sorts) structInfoOf(t types.Type) *structInfo {
+	t = types.Unalias(t)
 	S.structSort(t)
 	return S.structs[typeKey(t)]
 }
 
 func (S *Sorts) structSort(t types.Type) string {
+	t = types.Unalias(t)
 	key := typeKey(t)
 	if n, ok := S.dtOf[key]; ok {
 		return n
